@@ -203,6 +203,11 @@ def oracle(c, r):
                     yield ("trim-ends", "%s(%r) starts at %r, expected %r" % (name, l0, t["points"][0], ends[0]))
                 if name == "trim_front" and math.dist(t["points"][-1], ends[1]) > tol + 1e-9 * scale:
                     yield ("trim-ends", "trim_front(%r) ends at %r, the curve at %r" % (l0, t["points"][-1], ends[1]))
+        elif l0 < -1e-9 * max(L, 1.0) or l0 > L + 1e-9 * max(L, 1.0):
+            # ill-posed: a trim amount below zero or beyond the length (by more than rounding: L - (-5e-324) is L) yields nothing
+            for name, t in (("trim_front", tf), ("trim_back", tb)):
+                if t is not None:
+                    yield ("trim-ill-posed", "%s(%r) on a curve of length %r returned a curve of length %r; an out-of-range amount yields nothing" % (name, l0, L, t["length"]))
         # splits
         sp = r["split"]
         if isinstance(sp, list):
